@@ -1010,7 +1010,12 @@ Definition minit (progs : list (list op)) : machine :=
             one of the two cores has a failing sink, f/2 odd: After(hook)); a plain fields, b reflected ok,
             c reflected failing, d namespaces, e error-group size, f flags/depth; an optional eighth
             element h > 0 (kinds 3 and 6): the entry is a terminal one whose CheckWriteHook makes h-1 log
-            calls of its own (through a tee of a JSON and a console core) before it looks at its entry
+            calls of its own (through a tee of a JSON and a console core) before it looks at its entry;
+            a ninth and tenth element (size in KiB, variant) mark an OVERSIZE operation of the history
+            test (entries of 70 KiB .. 4 MiB, harness/c08_huge.go) - kept for the replay, not read here:
+            buffers of this model are byte lists without a capacity, so no operation of the model can
+            depend on how large a recycled object once was; that the real pools agree is what the
+            oversize histories test, and what the regenerated facts say path by path (KDep, Hygiene.v)
      adv    the adversary's choices for the model run
      aprobe the observed probe, abstracted the same way
      act    (name n): what the probe's sinks did on OTHER loggers while they were inside Write
